@@ -173,18 +173,19 @@ def r14b(ctx):
         ab = an(b)
         if ab.stores_to_field('xorb_bytes_uploaded', 'DeduplicationMetrics'):
             writers.add(p)
-    exp = {c16.TASK, 'deduplication::dedup_metrics::DeduplicationMetrics::merge_in'}
+    TASK = c16.xorb_task(ctx).path
+    exp = {TASK, 'deduplication::dedup_metrics::DeduplicationMetrics::merge_in'}
     ctx.check(writers == exp, 'R14b', '-', 'writers(xorb_bytes_uploaded)', '-', 'xorb_bytes_uploaded is written only by the upload task and merge_in',
               'unexpected writers of xorb_bytes_uploaded: %s' % sorted(writers ^ exp))
     # in the task: += ret(put)
-    at = an(F.body(c16.TASK))
+    at = an(F.body(TASK))
     ups = [(b, si, s) for (b, si, s) in at.stores_to_field('xorb_bytes_uploaded')]
     okt = False
     for (b, si, s) in ups:
         u = paths.additive_update(at, s)
         if u and u[1] == 1 and at.root_call(u[2]) and at.root_call(u[2])[1].endswith('UploadClient::put'):
             okt = True
-    ctx.check(okt, 'R14b', c16.TASK, 'xorb_bytes_uploaded', at.loc(ups[0][0], ups[0][1]) if ups else '-', 'the task adds exactly the byte count returned by put to xorb_bytes_uploaded')
+    ctx.check(okt, 'R14b', TASK, 'xorb_bytes_uploaded', at.loc(ups[0][0], ups[0][1]) if ups else '-', 'the task adds exactly the byte count returned by put to xorb_bytes_uploaded')
     # shard bytes / total
     sb = a.stores_to_field('shard_bytes_uploaded')
     ok = len(sb) == 1 and a.root_call(a.flow.rvalue(sb[0][2]['r'], 0)) is not None and a.root_call(a.flow.rvalue(sb[0][2]['r'], 0))[1].endswith('upload_and_register_session_shards')
@@ -196,9 +197,16 @@ def r14b(ctx):
         if e[0] == 'field' and e[2] == '0':
             e = e[1]
         if e[0] == 'bin' and e[1] in ('Add', 'AddO'):
-            ks = {paths.expr_place_key(e[2]), paths.expr_place_key(e[3])}
             dk = paths.place_key(a, tb[0][2]['d'])
-            ok = ks == {dk[:-1] + ('shard_bytes_uploaded',), dk[:-1] + ('xorb_bytes_uploaded',)}
+            sbv = a.root_call(a.flow.rvalue(sb[0][2]['r'], 0)) if len(sb) == 1 else None
+
+            def is_shard(z):
+                # the snapshot's own field, or the very value that was stored into it (ret(upload_and_register_session_shards))
+                return paths.expr_place_key(z) == dk[:-1] + ('shard_bytes_uploaded',) or (sbv is not None and a.root_call(z) is not None and a.root_call(z)[3] == sbv[3])
+
+            def is_xorb(z):
+                return paths.expr_place_key(z) == dk[:-1] + ('xorb_bytes_uploaded',)
+            ok = (is_shard(e[2]) and is_xorb(e[3])) or (is_shard(e[3]) and is_xorb(e[2]))
     ctx.check(ok, 'R14b', fn, 'total_bytes_uploaded', a.loc(tb[0][0], tb[0][1]) if tb else '-', 'total_bytes_uploaded = shard_bytes_uploaded + xorb_bytes_uploaded of the same snapshot')
     # the store must come after the snapshot AND after the join (it reads xorb_bytes_uploaded)
     if tb:
